@@ -607,7 +607,8 @@ impl Primitive {
     pub fn try_into_numeric_index(&self) -> Result<usize> {
         Ok(match self {
             Primitive::Byte(byte) => *byte as usize,
-            Primitive::BigInt(bigint) => *bigint as usize,
+            // a value that does not fit is past the end of anything, whatever its low bits are
+            Primitive::BigInt(bigint) => usize::try_from(*bigint).unwrap_or(usize::MAX),
             Primitive::Int(int) => *int as usize,
             other => bail!("cannot index with {other}"),
         })
